@@ -30,6 +30,9 @@ structure St where
   seenResidue : List String := []
   /-- sessions whose QERs were re-labelled by a modification (their leftovers are that defect's consequence) -/
   relabelled : List Nat := []
+  /-- sessions that had an accepted Update PDR changing the rule's pdrLookup key (the entries under the old key stay: their
+  leftovers are that defect's consequence) -/
+  keyChanged : List Nat := []
   /-- sessions for which a downlink-data notification was already forwarded (inside the 20 s interval of the run) -/
   notified : List Nat := []
   /-- largest sequence number of an agent-originated request seen so far, per association -/
@@ -149,6 +152,11 @@ def qosFindings (pre : String) (cfg : Cfg) (tables : List String) (seid : Nat) (
         else if n 4 < mbr * c.burstMs / 8 ∨ n 4 < c.pbs then some ⟨"C09", pre ++ s!"QER {q.id} {dir}: peak burst {n 4} below rate x duration {mbr * c.burstMs / 8} or the configured minimum {c.pbs}"⟩
         else if n 5 < mbr * c.burstMs / 8 ∨ n 5 < c.ebs then some ⟨"C09", pre ++ s!"QER {q.id} {dir}: excess burst {n 5} below rate x duration {mbr * c.burstMs / 8} or the configured minimum {c.ebs}"⟩
         else none
+
+/-- label suffix for the end of sessions that went through a modification with a recorded defect -/
+def afterLabel (st : St) (seids : List Nat) : String :=
+  (if seids.any st.relabelled.contains then " after-session-QER-relabel" else "") ++
+  (if seids.any st.keyChanged.contains then " after-key-changing-update" else "")
 
 def created (obs : Json) : List CreatedPdr :=
   (getArr obs "created").map fun c =>
@@ -291,9 +299,18 @@ def step (st : St) (_n : Nat) (line : String) : St × List Finding :=
         | none => []
       -- a QER that was programmed at application level becomes session-level (or the reverse), or two QERs are session-level
       let relabel := after.length > 1 ∨ after.any (fun i => !before.contains i ∧ existed.contains i) ∨ before.any (fun i => !after.contains i ∧ !req.removeQers.contains i)
+      -- an accepted Update PDR after which the rule has another pdrLookup key (bess.go upserts under the new key only)
+      let pdrKeys (p : Pdr) : List String := ((pdrEntries p).getD []).map (·.1)
+      let afterS := (out.world.conn a).sessions.find? (·.lseid = req.seid)
+      let keyChange := out.reply.cause = 1 ∧ req.updatePdrs.any fun u =>
+        match stored.bind (·.pdrs.find? (·.pdrID = u.id)), afterS.bind (·.pdrs.find? (·.pdrID = u.id)) with
+        | some o, some n => (pdrKeys o).any fun k => !(pdrKeys n).contains k
+        | _, _ => false
       let label := s!"mod{parts}" ++ (if sessLevel then " updates-session-level-QER" else "") ++
+        (if keyChange then " update-PDR-changes-key" else "") ++
         (if relabel then " session-QER-relabelled" else "") ++ (if out.reply.cause = 1 then "" else " rejected")
       let st' := if relabel then { st' with relabelled := req.seid :: st'.relabelled } else st'
+      let st' := if keyChange then { st' with keyChanged := req.seid :: st'.keyChanged } else st'
       let knownS := stored.isSome
       let wantSeid := match req.cpFseid, stored with
         | some (cp, _), some _ => cp
@@ -318,7 +335,7 @@ def step (st : St) (_n : Nat) (line : String) : St × List Finding :=
       let seid := getNat j "seid"
       let (w', r) := deleteSession st.cfg st.w a seid
       let st' := { st with w := w', ended := if r.cause = 1 then seid :: st.ended else st.ended }
-      let (st'', tf) := tableFindings st' obs true (if st.relabelled.contains seid then "del after-session-QER-relabel" else "del")
+      let (st'', tf) := tableFindings st' obs true ("del" ++ afterLabel st [seid])
       let known := (st.w.conn a).sessions.any (·.lseid = seid)
       let shapeF : List Finding :=
         (if !known ∧ getNat obs "cause" = 1 then [⟨"C02", "deletion of an unknown session accepted"⟩] else []) ++
@@ -337,7 +354,7 @@ def step (st : St) (_n : Nat) (line : String) : St × List Finding :=
       let a := getNat j "a"
       let sess := (st.w.conn a).sessions.map (·.lseid)
       let st' := { st with w := shutdownConn st.cfg st.w a, ended := sess ++ st.ended }
-      let (st'', tf) := tableFindings st' obs true (if sess.any st.relabelled.contains then "release after-session-QER-relabel" else "release")
+      let (st'', tf) := tableFindings st' obs true ("release" ++ afterLabel st sess)
       (st'', replyShape obs 10 ++ tf)
     | "hb" =>
       -- a Heartbeat Request is answered in any state, and changes nothing
@@ -352,7 +369,7 @@ def step (st : St) (_n : Nat) (line : String) : St × List Finding :=
       let seid := getNat j "seid"
       let known := (st.w.conn a).sessions.any (·.lseid = seid)
       let st' := { st with w := reportContextNotFound st.cfg st.w a seid, ended := if known then seid :: st.ended else st.ended }
-      let (st'', tf) := tableFindings st' obs true "report-context-not-found"
+      let (st'', tf) := tableFindings st' obs true ("report-context-not-found" ++ afterLabel st [seid])
       (st'', (if !getBool obs "alive" then [⟨"C01", s!"agent died: {getStr obs "crash"}"⟩] else []) ++
              (if getNat obs "n" != 0 then [⟨"C02", "a Session Report Response was answered"⟩] else []) ++ tf)
     | "gone" =>
@@ -360,7 +377,7 @@ def step (st : St) (_n : Nat) (line : String) : St × List Finding :=
       let a := getNat j "a"
       let sess := (st.w.conn a).sessions.map (·.lseid)
       let st' := { st with w := shutdownConn st.cfg st.w a, ended := sess ++ st.ended }
-      let (st'', tf) := tableFindings st' obs true s!"ended-by-{getStr j "how"}"
+      let (st'', tf) := tableFindings st' obs true (s!"ended-by-{getStr j "how"}" ++ afterLabel st sess)
       (st'', (if !getBool obs "alive" then [⟨"C01", s!"agent died: {getStr obs "crash"}"⟩] else []) ++ tf)
     | "stats" =>
       let so := (getObj? obs "stats").getD Json.null
